@@ -203,16 +203,21 @@ ProcHeader(nd, b) ==
                           !.hhead = IF Work(b) > Work(nd.hhead) THEN b ELSE @],
         ok |-> TRUE]
 
-(* process_block_single (chain.rs) + pipe::process_block.  Result classes:
-   "reject" | "known" | "orphan" | "ok_head" | "ok_fork"                    *)
-ProcBlockSingle(nd, b) ==
-  LET ph == ProcHeader(nd, b) IN
-  IF ~ph.ok THEN [nd |-> nd, res |-> "reject"]
-  ELSE LET n1 == ph.nd IN
-  IF b = n1.head \/ (Work(b) <= Work(n1.head) /\ b \in n1.bodies) THEN [nd |-> n1, res |-> "known"]   \* is_known
-  ELSE IF ~(Parent(b) = n1.head \/ Parent(b) \in n1.bodies)                                            \* check_orphan
-       THEN [nd |-> [n1 EXCEPT !.orph = IF \E i \in 1..Len(@) : @[i] = b THEN @ ELSE Append(@, b)], res |-> "orphan"]
-  ELSE IF KnownInPipe(n1, b) THEN [nd |-> n1, res |-> "known"]
+(* process_block_single (chain.rs) + pipe::process_block as three stages, each one critical
+   section (or one unlocked read) of the code, so that ChainConc.tla can interleave them:
+     ProcHeader   the header section (own batch, committed on success)
+     PreBody      is_known + check_orphan, read outside the chain locks
+     BodyStage    pipe::process_block under the header-MMR and txhashset write locks
+   Result classes: "reject" | "known" | "orphan" | "ok_head" | "ok_fork"                    *)
+PreBody(nd, b) ==
+  IF b = nd.head \/ (Work(b) <= Work(nd.head) /\ b \in nd.bodies) THEN [nd |-> nd, res |-> "known"]     \* is_known
+  ELSE IF ~(Parent(b) = nd.head \/ Parent(b) \in nd.bodies)                                           \* check_orphan
+       THEN [nd |-> [nd EXCEPT !.orph = IF \E i \in 1..Len(@) : @[i] = b THEN @ ELSE Append(@, b)], res |-> "orphan"]
+  ELSE [nd |-> nd, res |-> "go"]
+
+BodyStage(n1, b) ==
+  IF KnownInPipe(n1, b) THEN [nd |-> n1, res |-> "known"]
+  ELSE IF Parent(b) \notin n1.hdrs THEN [nd |-> n1, res |-> "reject"]      \* prev_header_store (cannot happen sequentially)
   ELSE IF ~BodyOK(b) THEN [nd |-> n1, res |-> "reject"]
   ELSE
     LET prev == Parent(b)
@@ -220,7 +225,9 @@ ProcBlockSingle(nd, b) ==
         st0 == [u |-> n1.u, opos |-> n1.opos, spentIdx |-> n1.spentIdx, sums |-> n1.sums, ok |-> TRUE]
         st1 == ImplRewindTo(st0, n1.head, fp)
         st2 == ImplApplyFork(st1, Segment(fp, prev), 1)
-    IN IF ~st2.ok THEN [nd |-> n1, res |-> "reject"]
+    IN IF \E x \in {Segment(fp, prev)[i] : i \in 1..Len(Segment(fp, prev))} : x \notin n1.bodies
+       THEN [nd |-> n1, res |-> "reject"]                                  \* a fork body is missing (get_block fails)
+       ELSE IF ~st2.ok THEN [nd |-> n1, res |-> "reject"]
        ELSE IF ~ImplUtxoOK(st2.u, st2.opos, b) THEN [nd |-> n1, res |-> "reject"]
        ELSE IF ~LateOK(b) THEN [nd |-> n1, res |-> "reject"]
        ELSE LET st3 == ImplApply(st2, b) IN
@@ -229,6 +236,12 @@ ProcBlockSingle(nd, b) ==
                                     !.sums = st3.sums, !.bodies = @ \cup {b}, !.head = b],
                   res |-> "ok_head"]
             ELSE [nd |-> [n1 EXCEPT !.bodies = @ \cup {b}], res |-> "ok_fork"]
+
+ProcBlockSingle(nd, b) ==
+  LET ph == ProcHeader(nd, b) IN
+  IF ~ph.ok THEN [nd |-> nd, res |-> "reject"]
+  ELSE LET pb == PreBody(ph.nd, b) IN
+       IF pb.res # "go" THEN pb ELSE BodyStage(pb.nd, b)
 
 \* check_orphans(height): process (in insertion order) all orphans at that height; if any
 \* was accepted continue with the next height.
